@@ -11,8 +11,12 @@ PROPS["C05"] = dict(
          "tenure - same Locker or another provider's - starts at once): its record stays present and unexpired for three leases and a "
          "contender stays excluded; waithold(the next holder waited 0.3..2.5 leases in Lock() before it got the lock): its record is fresh - "
          "present, unexpired, contender excluded for 2.5 leases; bystander(lock A is unlocked while its renewal is in flight and 2-4 other locks of the "
-         "process are acquired in that window): the other locks stay held for three leases. Batches of 4..8 scenarios run concurrently. lease 300 ms (quick) / 60 ms..1 s (thorough). "
-         "non-trivial = hold with >= 1 injected failure, death, handoff, waithold, or unlockrace whose renewal really was in flight; distinct = hash of the scenario",
+         "process are acquired in that window): the other locks stay held for three leases; hold scenarios acquire through Lock(), or through LockWithCtx/TryLock with a context that is cancelled "
+         "right after the acquisition on a storage wrapper that refuses done contexts (the context bounds the acquisition, not the tenure); relock(the same Locker is unlocked and locked again while a renewal "
+         "of the first tenure is in flight, optionally with the second Create itself in flight while the late renewal completes): the second tenure is acquired, present, unexpired and exclusive for 2.5 leases; "
+         "unlockfail(the Delete made by Unlock is lost on the way in, or its reply is, after 0..1.4 leases of holding): <= 1 renewal attempt afterwards, none succeeds, a contender acquires right after the expiration the record had then "
+         "and keeps its own record for 1.5 leases. Batches of 4..8 scenarios run concurrently. lease 300 ms (quick) / 60 ms..1 s (thorough). "
+         "non-trivial = hold with >= 1 injected failure, death, handoff, waithold, unlockfail, or unlockrace/relock whose renewal really was in flight; distinct = hash of the scenario",
     assumptions=["real clock: a verdict that depends on an upper time bound is confirmed by re-running the scenario with the lease doubled (twice) before it is "
                  "reported; lower bounds (acquired before the stored expiration, record after Unlock) are exact and reported at once",
                  "the lease period is set through the overlay accessor VerifSetLease; storage = in-memory backend behind a per-provider fault wrapper",
